@@ -253,6 +253,29 @@ Proof.
     repeat match goal with |- context [(?a =? v)%N] => destruct (N.eqb_spec a v); [congruence|] end. reflexivity.
 Qed.
 
+(* audit (2026-10-02): instances of hypotheses no stated Example reached.  (a) the three premises of C17_closure_correct on the
+   example graph (universe = its nodes, step = successors); (b) the non-negativity premise of C17_edge_max_reachable_is_max;
+   (c) C17_max_bottleneck_complete on a NON-degenerate input: the diamond with flow 0 on its last edge has source-to-sink paths,
+   every one of them contains an edge without flow, and the search answers MBNoPath (the edgeless graph below answers MBNoPath
+   too, but there the conclusion is about no path at all) *)
+Example C17_closure_premises_satisfiable :
+  NoDup exV /\ (forall x z, In x exV -> In z (succs_of exE x) -> In z exV) /\ In 0%N exV /\
+  (forall e, In e exE -> 0 <= wt exW e).
+Proof.
+  split; [repeat constructor; cbn; intuition discriminate|]. split; [|split; [left; reflexivity|]].
+  - intros x z Hx Hz. cbn in Hx. repeat (destruct Hx as [<-|Hx]; [cbn in Hz; cbn; intuition|]). destruct Hx.
+  - intros e He. cbn in He. repeat (destruct He as [<-|He]; [vm_compute; discriminate|]). destruct He.
+Qed.
+Definition exF0 : list (edge * Z) := [((0, 1)%N, 3); ((0, 2)%N, 2); ((1, 3)%N, 3); ((2, 3)%N, 2); ((3, 4)%N, 0)].
+Example C17_max_bottleneck_no_path_on_a_graph_with_paths :
+  peel_inputs_ok exG exP exS [0; 2; 1; 3; 4]%N = true /\ nonneg exG (flow_of exF0) /\
+  max_bottleneck_run exF0 exP exS [0; 2; 1; 3; 4]%N = MBNoPath /\ ss_path exG [0; 1; 3; 4]%N.
+Proof.
+  split; [vm_compute; reflexivity|]. split; [|split; [vm_compute; reflexivity|]].
+  - intros e He. cbn in He. repeat (destruct He as [<-|He]; [vm_compute; discriminate|]). destruct He.
+  - vm_compute. intuition discriminate.
+Qed.
+
 (* a graph without edges: the code as it is returns ([], []); before /repo 6d36e70 it evaluated B[None] (fixed finding
    max_bottleneck_path:KeyError:no-edges), which the switch keyerr = true still documents *)
 Example C17_peeling_no_edges : decompose_run [] [] [] [0]%N = PeelOK [] /\ max_bottleneck_run [] [] [] [0]%N = MBNoPath.
